@@ -40,7 +40,7 @@ func (c11) Cases(tier string) int {
 func (c11) Describe() core.Info {
 	return core.Info{
 		Level: "exploration",
-		Rule: "declared programs written as source text: an extensional predicate q declared with one or two bound rows drawn from the type-expression generator (base types, name-prefix types incl. prefix-of-a-prefix names /foo vs /foobar, singletons, unions, pairs, lists, maps, structs with optional fields, tagged unions; function and dot syntax) with base facts that are members by construction and near-misses (sibling prefix, wrong shape, extra struct field); an intensional predicate p declared with a related bound (same, widened, narrowed, mutated) and one rule that copies, projects, constructs (fn:pair, list, map, struct) or destructures (:match_pair, :list:member, :match_field, :match_entry) values, or joins q (two bound rows) with a wider predicate src on the same variable in either premise order, or narrows a union of name-prefix types by one or two negated :match_prefix premises over a small name trie, or derives a declared predicate from an undeclared recursive one whose values change type at every hop (clauses in either order). Programs are submitted to AnalyzeAndCheckBounds(ErrorForBoundsMismatch); every accepted program is evaluated and every stored fact of a user-declared predicate is judged by the library's own run-time check (builtin.TypeChecker.CheckTypeBounds). Non-trivial: program accepted and the declared intensional predicate has a derived fact; distinct by program text.",
+		Rule: "declared programs written as source text: an extensional predicate q declared with one or two bound rows drawn from the type-expression generator (base types, name-prefix types incl. prefix-of-a-prefix names /foo vs /foobar, singletons, unions, pairs, lists, maps, structs with optional fields, tagged unions; function and dot syntax) with base facts that are members by construction and near-misses (sibling prefix, wrong shape, extra struct field); an intensional predicate p declared with a related bound (same, widened, narrowed, mutated) and one rule that copies, projects, constructs (fn:pair, list, map, struct) or destructures (:match_pair, :list:member, :match_field, :match_entry) values, or joins q (two bound rows) with a wider predicate src on the same variable in either premise order, or narrows a union of name-prefix types by one or two negated :match_prefix premises over a small name trie, or declares the head predicate with a mode (? / - / + on the derived argument), or derives a declared predicate from an undeclared recursive one whose values change type at every hop (clauses in either order). Programs are submitted to AnalyzeAndCheckBounds(ErrorForBoundsMismatch); every accepted program is evaluated and every stored fact of a user-declared predicate is judged by the library's own run-time check (builtin.TypeChecker.CheckTypeBounds). Non-trivial: program accepted and the declared intensional predicate has a derived fact; distinct by program text.",
 		Assumptions: []string{"the run-time judgement is the library's own, as the property states", "rejected programs are not judged"},
 	}
 }
@@ -152,8 +152,38 @@ func (c11) Gen(r *rand.Rand, tier string, i int) any {
 	if !c12WellFormed(pt) || strings.Contains(fmt.Sprint(pt), "fn:Option") {
 		pt = t
 	}
-	shapes := []string{"copy", "pair", "list", "struct", "map", "member", "match-pair", "match-field", "copy-second-row", "cons", "join", "join-rev", "join-two-rows", "neg-prefix", "recursive-undeclared"}
+	shapes := []string{"copy", "pair", "list", "struct", "map", "member", "match-pair", "match-field", "copy-second-row", "cons", "join", "join-rev", "join-two-rows", "neg-prefix", "recursive-undeclared", "head-mode"}
 	shape := shapes[r.Intn(len(shapes))]
+	if shape == "head-mode" {
+		// the declared head predicate carries a mode: whatever the mode, a fact derived by a rule has to lie inside
+		// the declared bound (an argument that may be input or output still takes its value from the body)
+		trie := []string{"/name", "/foo", "/foo/a", "/bar", "/number", "/any"}
+		pick := func() string { return trie[r.Intn(len(trie))] }
+		members := map[string][]string{"/name": {"/bar/x", "/foo/y"}, "/foo": {"/foo/y", "/foo/a/z"}, "/foo/a": {"/foo/a/z"}, "/bar": {"/bar/x"}, "/number": {"1", "7"}, "/any": {"/bar/x", "1", "\"s\""}}
+		qt, pt := pick(), pick()
+		mode := []string{"'?'", "'-'", "'+'"}[r.Intn(3)]
+		var nb strings.Builder
+		fmt.Fprintf(&nb, "Decl q(X) bound [%s].\n", qt)
+		for _, m := range members[qt] {
+			fmt.Fprintf(&nb, "q(%s).\n", m)
+		}
+		if r.Intn(2) == 0 {
+			fmt.Fprintf(&nb, "Decl p(X) descr [mode(%s)] bound [%s].\np(X) :- q(X).\n", mode, pt)
+		} else {
+			m2 := []string{"'?'", "'-'"}[r.Intn(2)]
+			fmt.Fprintf(&nb, "Decl p(N, X) descr [mode(%s, %s)] bound [/number, %s].\np(2, X) :- q(X).\n", m2, mode, wrap2(syntax, "List", pt))
+			nb.Reset()
+			fmt.Fprintf(&nb, "Decl q(X) bound [%s].\n", qt)
+			for _, m := range members[qt] {
+				fmt.Fprintf(&nb, "q(%s).\n", m)
+			}
+			fmt.Fprintf(&nb, "Decl p(N, L) descr [mode(%s, %s)] bound [/number, %s].\np(2, L) :- q(X), L = [X].\n", m2, mode, wrap2(syntax, "List", pt))
+		}
+		if mode == "'+'" {
+			shape = "head-mode-input" // see known finding F43
+		}
+		return c11Case{Text: nb.String(), Shape: shape, Syntax: syntax}
+	}
 	if shape == "recursive-undeclared" {
 		// an undeclared recursive predicate whose values change type along the recursion (step has one bound row per
 		// hop); its inferred type has to cover every hop, in whichever order its clauses are written
